@@ -24,25 +24,63 @@ func (v *Violation) String() string { return v.Class + ": " + v.Detail }
 // (replay / minimised report). Logging never draws randomness or reads a real clock.
 type Trace struct {
 	Keep  bool
-	Lines []string
+	Lines []string // filled by Finish when Keep is set
+	evs   []traceEv
+	seq   int64
+	timed bool
+	done  bool
 	h     [32]byte
-	n     int
 	shape []string
 }
 
+type traceEv struct {
+	t int64
+	s string
+}
+
+// Add appends an event in program order (worlds without a clock).
 func (t *Trace) Add(format string, args ...any) {
 	if t == nil {
 		return
 	}
-	s := fmt.Sprintf(format, args...)
-	x := sha256.New()
-	x.Write(t.h[:])
-	x.Write([]byte(s))
-	copy(t.h[:], x.Sum(nil))
-	t.n++
-	if t.Keep {
-		t.Lines = append(t.Lines, s)
+	t.seq++
+	t.evs = append(t.evs, traceEv{t.seq, fmt.Sprintf(format, args...)})
+}
+
+// AddAt appends an event stamped with fake time. Events of one instant are ordered
+// canonically (by text) when the trace is finished, so the order in which the Go
+// scheduler happened to run goroutines that were runnable in the same fake instant is
+// not part of the fingerprint (DESIGN.md §2.9).
+func (t *Trace) AddAt(at time.Duration, format string, args ...any) {
+	if t == nil {
+		return
 	}
+	t.timed = true
+	t.evs = append(t.evs, traceEv{int64(at), fmt.Sprintf("%v ", at) + fmt.Sprintf(format, args...)})
+}
+
+func (t *Trace) finish() {
+	if t.done {
+		return
+	}
+	t.done = true
+	if t.timed {
+		sort.SliceStable(t.evs, func(i, j int) bool {
+			if t.evs[i].t != t.evs[j].t {
+				return t.evs[i].t < t.evs[j].t
+			}
+			return t.evs[i].s < t.evs[j].s
+		})
+	}
+	x := sha256.New()
+	for _, e := range t.evs {
+		x.Write([]byte(e.s))
+		x.Write([]byte{10})
+		if t.Keep {
+			t.Lines = append(t.Lines, e.s)
+		}
+	}
+	copy(t.h[:], x.Sum(nil))
 }
 
 // Shape records one element of the event-shape signature (event kind / actor class /
@@ -58,10 +96,11 @@ func (t *Trace) Hash() string {
 	if t == nil {
 		return ""
 	}
+	t.finish()
 	return hex.EncodeToString(t.h[:8])
 }
 
-func (t *Trace) Events() int { return t.n }
+func (t *Trace) Events() int { return len(t.evs) }
 
 // ShapeSig is the hash of the shape sequence.
 func (t *Trace) ShapeSig() string {
@@ -78,6 +117,13 @@ type Result struct {
 	Faults     map[string]int // fault kinds that actually fired
 	Probes     map[string]int // reach probes
 	Inconcl    int            // inconclusive sub-checks (e.g. porcupine Unknown)
+	// Derived, when a run enumerated sub-scenarios itself (fault enumeration), is the
+	// explicit sub-scenario that failed; it replaces the scenario for confirm/shrink/replay.
+	Derived any
+	// Evals is the number of executions this run performed (1 unless it enumerated).
+	Evals int
+	// ExtraSigs are the shape signatures of enumerated sub-runs.
+	ExtraSigs []string
 }
 
 func NewResult() *Result {
